@@ -249,6 +249,16 @@ func main() {
 			var visit func(list []ast.Stmt)
 			visit = func(list []ast.Stmt) {
 				for _, st := range list {
+					// the "statements" of a switch or select body are its clauses: nothing can stand
+					// in front of a clause, the yields go in front of the statements inside it
+					switch cc := st.(type) {
+					case *ast.CaseClause:
+						visit(cc.Body)
+						continue
+					case *ast.CommClause:
+						visit(cc.Body)
+						continue
+					}
 					if _, isDefer := st.(*ast.DeferStmt); isDefer {
 						// never separate `mu.Lock()` from its `defer mu.Unlock()`: a goroutine
 						// unwound at a yield in between would leave the mutex locked
